@@ -317,6 +317,69 @@ def streamFill (fixed : Bool) (bs : UInt32) (s : StreamSt) (w : UInt32) (l : Blk
         else done s [Access.mk .fragBlock fragOff.toNat bufUsed.toNat fragBlkSize.toNat,
                      Access.mk .streamBuf 0 bufUsed.toNat bs.toNat]
 
+/-! ## `sqfs_data_reader_read` (data_reader.c:299-372) -/
+
+/-- `for (i = 0; offset > data->block_size && i < block_count; ++i) offset -= block_size;` -/
+def dataReadSkip (bs : UInt64) : (remaining : Nat) → (i : Nat) → (offset : UInt64) → Nat × UInt64
+  | 0, i, offset => (i, offset)
+  | rem + 1, i, offset => if offset > bs then dataReadSkip bs rem (i + 1) (offset - bs) else (i, offset)
+
+/--
+`while (i < block_count && size > 0)`: copy from the blocks.  `words i` = `inode->extra[i]`, `blkOk i` = whether
+`precache_data_block` succeeds for block `i` (it allocates `block_size` bytes), `cap` = the caller's buffer size.
+Returns `(offset, size, total)` after the loop.
+-/
+def dataReadBlocks (bs : UInt32) (words : Nat → UInt32) (blkOk : Nat → Bool) (blockCount cap : Nat) :
+    (remaining : Nat) → (i : Nat) → (offset : UInt64) → (size total : UInt32) → List Access →
+    Except Err (UInt64 × UInt32 × UInt32) × List Access
+  | 0, _, offset, size, total, acc => (.ok (offset, size, total), acc)
+  | rem + 1, i, offset, size, total, acc =>
+    if size == 0 then (.ok (offset, size, total), acc)
+    else
+      -- :333  diff = data->block_size - offset;  if (size < diff) diff = size;
+      let diff0 : UInt32 := (bs.toUInt64 - offset).toUInt32
+      let diff := if size < diff0 then size else diff0
+      let acc := acc ++ [Access.mk .inoData (i * 4) 4 (blockCount * 4)]
+      if onDiskSize (words i) == 0 then
+        -- :338  memset(buffer, 0, diff)
+        dataReadBlocks bs words blkOk blockCount cap rem (i + 1) 0 (size - diff) (total + diff)
+          (acc ++ [Access.mk .dst total.toNat diff.toNat cap])
+      else if !blkOk i then (.error .io, acc)
+      else
+        -- :344  memcpy(buffer, (char *)data->data_block + offset, diff)
+        dataReadBlocks bs words blkOk blockCount cap rem (i + 1) 0 (size - diff) (total + diff)
+          (acc ++ [Access.mk .dataBlock offset.toNat diff.toNat bs.toNat, Access.mk .dst total.toNat diff.toNat cap])
+
+/-- `sqfs_data_reader_read(data, inode, offset, buffer, size)`; `fragPre` = `precache_fragment_block` result
+(`frag_blk_size`).  Returns the byte count. -/
+def dataRead (bs : UInt32) (words : Nat → UInt32) (blkOk : Nat → Bool) (blockCount : Nat) (filesz offset : UInt64)
+    (size0 : UInt32) (fragOff : UInt32) (fragPre : Except Err UInt64) : Except Err UInt32 × List Access :=
+  -- :311  if (size >= 0x7FFFFFFF) size = 0x7FFFFFFE;
+  let size : UInt32 := if size0 ≥ 0x7FFFFFFF then 0x7FFFFFFE else size0
+  -- :320  if (offset >= filesz) return 0;
+  if offset ≥ filesz then (.ok 0, [])
+  else
+    -- :323  if ((filesz - offset) < (sqfs_u64)size) size = filesz - offset;
+    let size : UInt32 := if filesz - offset < size.toUInt64 then (filesz - offset).toUInt32 else size
+    if size == 0 then (.ok 0, [])
+    else
+      let (i, offset) := dataReadSkip bs.toUInt64 blockCount 0 offset
+      match dataReadBlocks bs words blkOk blockCount size0.toNat (blockCount - i) i offset size 0 [] with
+      | (.error e, acc) => (.error e, acc)
+      | (.ok (offset, size, total), acc) =>
+        -- :355  if (size > 0) copy from the fragment
+        if size == 0 then (.ok total, acc)
+        else match fragPre with
+          | .error e => (.error e, acc)
+          | .ok fragBlkSize =>
+            -- :360  if ((frag_off + offset) >= data->frag_blk_size)          (u64 sum)
+            if fragOff.toUInt64 + offset ≥ fragBlkSize then (.error .oob, acc)
+            -- :363  if ((data->frag_blk_size - (frag_off + offset)) < size)
+            else if fragBlkSize - (fragOff.toUInt64 + offset) < size.toUInt64 then (.error .oob, acc)
+            else
+              (.ok (total + size), acc ++ [Access.mk .fragBlock (fragOff.toNat + offset.toNat) size.toNat fragBlkSize.toNat,
+                                          Access.mk .dst total.toNat size.toNat size0.toNat])
+
 /-! ## `read_table.c` -/
 
 /--
